@@ -133,3 +133,29 @@ Definition recv_ok (kind : nat) (e : cev) (r : result) : bool :=
 (* the events still to be delivered, in order *)
 Definition stream (w : ws) : list cev :=
   queue w ++ match hand w with Some e => [e] | None => [] end ++ client w.
+
+(* ---- 4. which close code the application wrapper uses once the responder has ended.
+   cause: 0 returned, 1 unrouted, 2 no on_websocket responder, 3 HTTPError/HTTPStatus s,
+   4 any other exception.  The first close the wrapper attempts carries the code of the cause;
+   a further attempt (after that close failed) carries the configured error code, or the
+   fallback when the configured one is invalid. *)
+Definition expected_code (c : cfg) (fallback offset : Z) (cause : nat) (s : Z) : Z :=
+  match cause with
+  | O => 1000
+  | S O => 404 + offset
+  | S (S O) => 405 + offset
+  | S (S (S O)) => s + offset
+  | _ => if valid_code (err_code c) then err_code c else fallback
+  end.
+
+Definition close_codes (l : list (event * sfail)) : list Z :=
+  flat_map (fun a => match fst a with EClose z _ => [z] | _ => [] end) l.
+
+Definition wrapper_close_ok (c : cfg) (fallback offset : Z) (cause : nat) (s : Z)
+           (l : list (event * sfail)) : bool :=
+  match close_codes l with
+  | [] => true
+  | z :: tl =>
+    Z.eqb z (expected_code c fallback offset cause s)
+    && forallb (fun y => Z.eqb y (expected_code c fallback offset 4 0)) tl
+  end.
